@@ -78,6 +78,8 @@ func (c *Ctx) EntrySet(name string) ([]*ssa.Function, []string) {
 		}
 		// decoders and hooks are reached through reflection from mapstructure
 		fns = append(fns, p.MethodsNamed("DecodeMapstructure")...)
+		// and from the yaml / json decoders
+		fns = append(fns, p.MethodsNamed("UnmarshalYAML", "UnmarshalJSON", "UnmarshalText")...)
 	case "RENDER":
 		fns = append(fns, p.MethodsNamed("MarshalYAML", "MarshalJSON")...)
 	case "DERIVE":
